@@ -35,7 +35,7 @@ ASSUMPTIONS = [
     "transmission bound, payload identity and the socket clause are checked on those paths",
     "real loopback sockets (/proc/self/fd) are outside deterministic simulation; they are used only by `selftest fidelity`",
 ]
-PROBES = ["timeout_raised", "late_reply_dropped", "duplicate_reply", "icmp_error", "fatal_error", "reply_on_last_attempt",
+PROBES = ["another_loop_used_before_and_still_open", "timeout_raised", "late_reply_dropped", "duplicate_reply", "icmp_error", "fatal_error", "reply_on_last_attempt",
           "via_client_get", "error_then_retry_or_raise", "wall_clock_jumps", "send_blocked", "empty_reply", "slow_socket_setup", "ipv6_peer",
           "cancelled_by_caller", "reply_over_1024_octets"]
 shrink_lists: List[tuple] = []
@@ -75,7 +75,10 @@ def plan_for(tier: str, seed: int, i: int) -> dict:
     setup = [crng.choice([0, 0, 0, 10, int(256 * timeout)]) for _ in range(retries)]
     cancel_at = crng.choice([1, 5, int(1024 * timeout) + 3, int(1024 * timeout * retries) - 2]) if crng.random() < 0.1 else None
     return {"prop": ID, "retries": retries, "seq": seq, "timeout": timeout, "latseed": latseed, "via": via, "clock": clock,
-            "setup_ticks": setup, "ipv6": crng.random() < 0.2, "cancel_at": cancel_at}
+            "setup_ticks": setup, "ipv6": crng.random() < 0.2, "cancel_at": cancel_at,
+            # another event loop of the same process on which the sender was used before and which is still open (a second
+            # thread's loop, a loop kept for later): the call under test runs on its own loop all the same
+            "other_loop_open": rng_for(seed, ID, tier + ":loop", i).random() < 0.06}
 
 
 class ScriptedPeer:
@@ -153,6 +156,12 @@ class ScriptedPeer:
 def execute(plan: dict) -> dict:
     from puresnmp.transport import Endpoint, send_udp
     from ipaddress import ip_address
+    w0 = None
+    if plan.get("other_loop_open"):
+        w0 = World()
+        w0.net.add_agent(("10.0.0.9", 161), RefAgent({(1, 3, 6, 1, 2, 1, 1, 1, 0): ("str", b"other")}, communities={1: {b"public"}}))
+        probe = S.enc_community_msg(1, b"public", S.enc_pdu(S.mkpdu(S.PDU_GET, 1, [((1, 3, 6, 1, 2, 1, 1, 1, 0), ("null", None))])))
+        w0.run(send_udp(Endpoint(ip_address("10.0.0.9"), 161), probe, timeout=1, retries=1))
     w = World(clock=plan.get("clock"))
     peer = ScriptedPeer(w, plan)
     peer_ip = "fd00::2" if plan.get("ipv6") else "10.0.0.2"
@@ -288,7 +297,7 @@ def execute(plan: dict) -> dict:
         "via_client_get": int(client is not None), "error_then_retry_or_raise": int(error_seen),
         "wall_clock_jumps": int(plan.get("clock", {}).get("mode") == "jumping"),
         "send_blocked": int("B" in seq[:len(atts)]), "slow_socket_setup": int(any(setup[:max(1, len(atts))])),
-        "ipv6_peer": int(bool(plan.get("ipv6"))), "cancelled_by_caller": int(cancelled),
+        "ipv6_peer": int(bool(plan.get("ipv6"))), "another_loop_used_before_and_still_open": int(bool(plan.get("other_loop_open"))), "cancelled_by_caller": int(cancelled),
         "reply_over_1024_octets": int(answered_at is not None and len(atts[answered_at]["replies"][0][1]) > 1024),
         "empty_reply": int(answered_at is not None and atts[answered_at]["replies"][0][1] == b""),
     }
@@ -309,10 +318,14 @@ def execute(plan: dict) -> dict:
             retries, seq, timeout, plan["via"], excname or "ok", t_end, len(sends)),
     }
     w.close()
+    if w0 is not None:
+        w0.close()
     return out
 
 
 def simplify(plan: dict):
+    if plan.get("other_loop_open"):
+        p = dict(plan); p["other_loop_open"] = False; yield p
     if plan["via"] == "client":
         p = dict(plan); p["via"] = "send_udp"; yield p
     if plan["retries"] > 1:
